@@ -189,7 +189,7 @@ def run_spec_shard(idx: int, cfgs: list[dict], name: str, timeout: int):
     for lib in (tlc.SPECS / "lib").glob("*.tla"):
         shutil.copy(lib, d / lib.name)
     (d / "TransConsts.tla").write_text(consts_module(cfgs))
-    res = tlc.run_tlc(d, "Transitions", CFG_TEXT, workers=1, timeout=timeout, dump_trace=False)
+    res = tlc.run_tlc(d, "Transitions", CFG_TEXT, workers=1, timeout=timeout, dump_trace=False, cpus=2, heap="2g")
     return res
 
 
